@@ -10,8 +10,9 @@
 (*   Gas     RUN-TIME gas of the concrete run from a machine state: Yellow-paper  *)
 (*           tiers; SLOAD/SSTORE/BALANCE/EXTCODE* priced cold (2100/2600) on the  *)
 (*           first access to a concrete slot/account in the block and warm (100)  *)
-(*           afterwards; SSTORE 100 when the slot was already written in the      *)
-(*           block or keeps its value, else 2900 (reset; no refunds);             *)
+(*           afterwards; SSTORE as EIP-2200 with the value at block entry as the     *)
+(*           original value: 100 if the value does not change or the slot is dirty,  *)
+(*           2900 for the first change of a clean slot (reset price; no refunds);    *)
 (*           KECCAK256 30 + 6/word, EXP 10 + 50/exponent byte, LOG 375 + 375/topic *)
 (*           + 8/byte, copies 3 + 3/word.  No memory expansion.                  *)
 (***************************************************************************)
@@ -50,7 +51,9 @@ GasStep(acc, ins) ==
                   [] op \in {"KECCAK256", "SHA3"} -> IF RangeOK(s[1], s[2]) THEN 30 + 6 * Words32(RangeLen(s[2])) ELSE 30
                   [] op = "SLOAD" -> IF s[1] \in acc.slots THEN 100 ELSE 2100
                   [] op = "SSTORE" -> (IF s[1] \in acc.slots THEN 0 ELSE 2100)
-                                      + (IF s[1] \in acc.written \/ StoAt(st, s[1]) = s[2] THEN 100 ELSE 2900)
+                                      + (IF StoAt(st, s[1]) = s[2] THEN 100                          \* no-op
+                                         ELSE IF StoAt(st, s[1]) = InitSto(st.ss, s[1]) THEN 2900      \* clean slot
+                                         ELSE 100)                                                    \* dirty slot
                   [] op \in {"BALANCE", "EXTCODESIZE", "EXTCODEHASH", "EXTCODECOPY"} -> IF s[1] \in acc.accts THEN 100 ELSE 2600
                   [] op = "BLOCKHASH" -> 20
                   [] op \in LogOps -> 375 * (Pops(ins) - 1) + (IF RangeOK(s[1], s[2]) THEN 8 * RangeLen(s[2]) ELSE 0)
